@@ -1,6 +1,25 @@
-"""C15: Sharing solvers never exceed capacities. See DESIGN.md section 4 (C15), checks/lmm_check.py and checks/lmm_common.py."""
+"""C15: Sharing solvers never exceed capacities.  See DESIGN.md section 4 (C15), checks/lmm_check.py (pipeline) and checks/lmm_common.py.
+
+What is decided: after every solve of every replayed history, TLC evaluates Lmm!FeasibleI on the values of the real systems
+(MaxMin selective, MaxMin full, a fresh MaxMin system rebuilt from the current activities, BMF, FairBottleneck): weighted sum <=
+capacity on SHARED constraints, each weighted rate <= capacity on FATPIPE constraints, disabled / suspended / staged variables
+at 0, 0 <= rate <= bound, up to precision/work-amount.  A solver that aborts (other than the explicit error of BMF) or does not
+terminate (2 s of CPU time) is a rejection too.  M: Lmm!FeasibleR holds for the reference allocation MaxMin(sys) in every state
+of the small-scope exploration of Lmm.tla.
+
+Mutations tried (scratch worktree, VERIF_REPO/VERIF_BUILD, quick tier with VERIF_LMM_SCALE=0.4):
+  M3  maxmin_solve ignores the bound of a variable (`if (false && var.bound_ > 0 ...)`)        caught (Feasible on mmsel, mmfull; exit 1)
+  M4+M5+M6 together (FATPIPE rule forgotten / staging off by one / update_constraint_bound forgets the modified set): run
+      interrupted for lack of machine time; M6 is expected to be caught (stale rates above a decreased capacity), M4 is not
+      (it under-allocates: feasible).
+With the seven proposed fixes applied (proposed/fix-C1[5-8]-*.diff) the check reports no rejection except one BMF bound excess
+that the proposed BMF patch (a test in is_bmf) still lets through.
+"""
 import lmm_check, lmm_common
 LEVEL = "model_checking"
+META = {"text": "TLC generates histories of lmm::System API operations from the specification spec/lmm/Lmm.tla (regression cases, seeded -simulate histories, every 2-operation extension of base systems), the driver replays them on real MaxMin (selective and full), fresh, BMF and FairBottleneck systems, and TLC evaluates the capacity / bound / zero-rate predicate Feasible of the specification on the implementation's values after every solve; the reference allocation is model-checked feasible at small scope. Model checking of the specification plus conformance of replayed behaviours, hence model_checking.",
+        "note": 'Trusted: TLC; the driver harness/lmm_driver.cpp (replays the operations through the public API of lmm::System, reads values back with get_value / get_penalty / get_concurrency_slack, scales doubles by 1e5 and rounds); tolerance = 1e5 * precision/work-amount per unit of magnitude + rounding. Conformance holds for the histories replayed (<= 3 constraints x 7 variables x 26 operations in the quick tier, <= 5 x 10 x 60 in the thorough tier; not the 12 x 20 systems of the statement), exhaustiveness only for Lmm.tla within the stated scope and for the 2-operation extensions of the base systems. In-situ dumps of simulations (hook H2) are not used. TLC -coverage cannot be used on these modules (it runs out of memory building its cost model): vacuity is guarded by measured operation counts. Rejections in the situations recorded in KNOWN_FINDINGS.jsonl (cause tags computed by TLC on the abstract system that follows the implementation) are reported as known findings; a mutation that only shows in those situations would be masked.',
+        "technique": 'TLC model checking of spec/lmm/Lmm.tla (LmmGen, small scope) + TLC-generated histories replayed into the real lmm::System classes (harness/lmm_driver.cpp) + TLC evaluation of the predicates on the logged values (LmmTrace.tla)'}
 DRIVERS = lmm_common.DRIVERS
 
 
